@@ -1,4 +1,6 @@
 import WindVerif.Proofs.PoolLifeAux3
+import WindVerif.Proofs.PoolLifeMid
+import WindVerif.Proofs.PoolLifeMidB
 /-! Worker lifecycle in the pool model (C04): holds with the injected faults too. -/
 namespace WindVerif.Pool
 
